@@ -12,9 +12,9 @@
    searched innermost first exactly like Scope.get/localGet/set walk Vars and then parents.  The height is the
    number of cells the frame had when the scope was formed: the reference evaluator only sees that prefix (lexical
    scoping), the Go code sees the whole map.  (Before the repairs C01-12/13 a closure made while a dolist / dotimes /
-   do* scope was still being filled later saw the cells added afterwards; now every frame is complete when the first
-   scope over it is formed, and the two views agree on every state a program of source forms reaches.)  No definition
-   in this file is mode-dependent except through the small functions [store_red], [locate_m], [short_args]: they are
+   do* scope was still being filled later saw the cells added afterwards; now the only frame that grows after a scope
+   over it was formed is the frame Lambda.Call fills with the defaults of &optional parameters.)  No definition
+   in this file is mode-dependent except through the small functions [store_red] and [locate_m]: they are
    the complete list of places where M and S differ.
 
    Side effects are calls of the harness-defined function (tr k e): evaluates e, appends k to the trace, returns
@@ -50,6 +50,8 @@ Inductive expr :=
 | ESetq (ps : list (string * expr))
 | ELambda (ps : list string) (es : list expr)
 | EDefun (f : string) (ps : list string) (es : list expr)
+| ELambdaO (ps : list string) (os : list (string * expr)) (es : list expr)      (* (lambda (p.. &optional (o default)..) ..) *)
+| EDefunO (f : string) (ps : list string) (os : list (string * expr)) (es : list expr)
 | ECall (f : string) (es : list expr)                  (* call of a function made by defun *)
 | EPrim (p : prim) (es : list expr)                    (* call of a strict built-in *)
 | EFuncall (f : expr) (es : list expr)
@@ -71,7 +73,8 @@ Inductive val :=
 | VNil | VT | VInt (z : Z) | VSym (s : string) | VStr (s : string) | VRaw (s : string)
 | VList (vs : list val)                                 (* proper non-empty list *)
 | VDot (vs : list val) (tl : val)
-| VClo (ps : list string) (body : list expr) (sc : scope)   (* *slip.Lambda with its Closure *)
+| VClo (ps : list string) (os : list (string * expr)) (body : list expr) (sc : scope)
+      (* *slip.Lambda with its Closure: required parameters, &optional parameters with their default forms *)
 | VFn (f : string)                                      (* *slip.FuncInfo, the value of (function f) *)
 | VValues (vs : list val).                              (* slip.Values: in the Go code an ordinary object *)
 
@@ -194,9 +197,6 @@ Definition truthy (m : mode) (v : val) : out bool := Ok (negb (is_nil (primary v
    every mode since the repair of or.go; the mode argument is kept for uniformity with the other switches) *)
 Definition or_step (m : mode) (v : val) : out (option val) :=
   Ok (if is_nil (primary v) then None else Some (primary v)).
-(* Lambda.Call with fewer arguments than parameters binds what it has (the rest stays unbound) *)
-Definition short_args (m : mode) : out unit :=
-  match m with Slip => Ok tt | Ref => Er EArity | Chk => Er EDev end.
 
 (* ---------------------------------------------------------------------------------------------- built-ins *)
 Definition big : Z := 4611686018427387904%Z.             (* 2^62: beyond it fixnum arithmetic is C05's *)
@@ -271,16 +271,16 @@ Definition prim_name (s : string) : option prim :=
   else if String.eqb s "eql" then Some PEql else if String.eqb s "length" then Some PLength else None.
 
 (* what funcall / apply / mapcar can call: ResolveToCaller *)
-Inductive callable := CClo (ps : list string) (body : list expr) (sc : scope) | CPrim (p : prim).
+Inductive callable := CClo (ps : list string) (os : list (string * expr)) (body : list expr) (sc : scope) | CPrim (p : prim).
 Definition resolve_name (st : state) (f : string) : out callable :=
   match find_fun (funs st) f with
-  | Some (VClo ps body sc) => Ok (CClo ps body sc)
+  | Some (VClo ps os body sc) => Ok (CClo ps os body sc)
   | Some _ => Er EMalformed
   | None => match prim_name f with Some p => Ok (CPrim p) | None => Er EUndefFun end
   end.
 Definition resolve (st : state) (v : val) : out callable :=
   match v with
-  | VClo ps body sc => Ok (CClo ps body sc)
+  | VClo ps os body sc => Ok (CClo ps os body sc)
   | VSym f | VFn f => resolve_name st f
   | _ => Er EType
   end.
@@ -289,6 +289,8 @@ Definition case_key (v : val) (d : datum) : bool :=
   | DInt z => val_eql v (VInt z) | DSym s => val_eql v (VSym s) | DNil => is_nil v | DT => val_eql v VT
   | _ => false
   end.
+Fixpoint drop {A} (l : list A) (k : nat) : list A :=
+  match l with [] => [] | x :: l' => match k with O => l | S k' => drop l' k' end end.
 Fixpoint pad (vs : list val) (n : nat) : list val :=
   match n with O => [] | S n' => match vs with [] => VNil :: pad [] n' | v :: vs' => v :: pad vs' n' end end.
 Fixpoint transpose (n : nat) (ls : list (list val)) : list (list val) :=    (* the n argument rows of mapcar *)
@@ -394,16 +396,36 @@ Fixpoint ev_setq (st : state) (sc : scope) (ps : list (string * expr)) (last : v
       bind (assign st1 sc x a) (fun _ st2 => ev_setq st2 sc ps' a)))      (* setq returns what it stored *)
   end.
 
-(* Lambda.Call + BoundCall; Caller.Call of a built-in *)
+(* the &optional parameters that got no argument, in order: the default form is evaluated in the scope being built -
+   it sees the parameters bound so far (Go: ONE scope, so a closure made by a default form later sees the parameters
+   bound after it; the language: only those before) - and the parameter is bound at once (ss.Let stores the object,
+   Values included, like let).  A parameter whose name is already bound in the new scope keeps its value. *)
+Fixpoint ev_defaults (st : state) (sc : scope) (f : nat) (os : list (string * expr)) : res unit :=
+  match os with
+  | [] => (Ok tt, st)
+  | (x, e) :: os' =>
+      match fr_index (get_frame st f) x with
+      | Some _ => ev_defaults st sc f os'
+      | None =>
+          bind (ev st ((f, List.length (get_frame st f)) :: sc) e) (fun v st1 =>
+          bindo (store_red m v) st1 (fun a => ev_defaults (bind_in st1 f x a) sc f os'))
+      end
+  end.
+(* Lambda.Call + BoundCall; Caller.Call of a built-in.  Too many and (since the repair of the binder) too few
+   arguments are errors; the arguments are bound to the required and then to the &optional parameters. *)
 Definition apply_fn (st : state) (c : callable) (args : list val) : result :=
   match c with
   | CPrim p => (prim_apply p args, st)
-  | CClo ps body csc =>
-      if List.length ps <? List.length args then (Er EArity, st)
-      else bindo (if List.length args <? List.length ps then short_args m else Ok tt) st (fun _ =>
-           let fr := mk_frame ps args in
+  | CClo ps os body csc =>
+      if List.length ps + List.length os <? List.length args then (Er EArity, st)
+      else if List.length args <? List.length ps then (Er EArity, st)
+      else let fr := mk_frame (ps ++ map fst os) args in
            let '(f, st1) := alloc st fr in
-           ev_seq st1 ((f, List.length fr) :: csc) body VNil)
+           match drop os (List.length args - List.length ps) with
+           | [] => ev_seq st1 ((f, List.length fr) :: csc) body VNil
+           | ds => bind (ev_defaults st1 csc f ds) (fun _ st2 =>
+                   ev_seq st2 ((f, List.length (get_frame st2 f)) :: csc) body VNil)
+           end
   end.
 Fixpoint ev_map (st : state) (c : callable) (rows : list (list val)) : res (list val) :=
   match rows with
@@ -490,12 +512,14 @@ Definition evalF (st : state) (sc : scope) (e : expr) : result :=
       ev_seq st2 ((f, List.length fr) :: sc) es VNil)
   | ELetStar bs es => ev_letstar st sc bs es
   | ESetq ps => ev_setq st sc ps VNil
-  | ELambda ps es => (Ok (VClo ps es sc), st)
-  | EDefun f ps es => (Ok (VSym f), add_fun st f (VClo ps es sc))
+  | ELambda ps es => (Ok (VClo ps [] es sc), st)
+  | EDefun f ps es => (Ok (VSym f), add_fun st f (VClo ps [] es sc))
+  | ELambdaO ps os es => (Ok (VClo ps os es sc), st)
+  | EDefunO f ps os es => (Ok (VSym f), add_fun st f (VClo ps os es sc))
   | ECall f es =>
       match find_fun (funs st) f with
-      | Some (VClo ps body csc) =>
-          bind (ev_args st sc es) (fun vs st1 => apply_fn st1 (CClo ps body csc) vs)
+      | Some (VClo ps os body csc) =>
+          bind (ev_args st sc es) (fun vs st1 => apply_fn st1 (CClo ps os body csc) vs)
       | Some _ => (Er EMalformed, st)
       | None => (Er EUndefFun, st)
       end
